@@ -412,6 +412,8 @@ def r6_batch(ctx, cfg):
 def run(ctx, cfg=CFG):
     r1_reentrancy(ctx, cfg)
     r2_validated(ctx, cfg)
+    from .c07 import hooks_fast_path
+    hooks_fast_path(ctx, "C12.R2")
     r3_order(ctx, cfg)
     r4_fanout(ctx, cfg)
     r5_no_guard_across_await(ctx, cfg)
